@@ -1,6 +1,8 @@
 mod alloc;
 mod backend;
+mod contract;
 mod crash;
+mod fault;
 mod history;
 mod image;
 mod mm;
@@ -50,6 +52,8 @@ fn main() {
         "mm" => mm::run(&args),
         "history" => history::run(&args),
         "crash" => crash::run(&args),
+        "fault" => fault::run(&args),
+        "contract" => contract::run(&args),
         other => {
             eprintln!("unknown command {other}");
             std::process::exit(2);
